@@ -176,3 +176,13 @@ def run4 (ops : List Op) : World := ops.foldl World.step (World.init 0 4)
   | _, _ => false)
 
 end CC.Props.NonVacuityLevels
+
+/-! C16 `rekey_never_republishes`: hypotheses met in a reachable world (a published value, then
+operations, then a rekey of rights the master key holds) -/
+namespace CC.Props.NonVacuityRekey
+open CC CC.Props.NonVacuity
+#guard !(run base).msk.mpk.keys.isEmpty
+#guard (match (run (base ++ [.keygen (pol "D::A"), .rekey (pol "S::T")])).msk.structure_.uskRights (pol "D::A") with
+  | .ok rs => rs.all (fun r => ((run (base ++ [.keygen (pol "D::A"), .rekey (pol "S::T")])).msk.secrets.getLatest r).isSome) && !rs.isEmpty
+  | .error _ => false)
+end CC.Props.NonVacuityRekey
